@@ -42,6 +42,7 @@ struct Ev {
 struct T {
     bool registered{false}, finished{false}, detached{false}, parked{false}, spinning{false}, bg{false};
     std::uint64_t steps{0};
+    long prio{0};                            // PCT priority (higher runs first)
     std::uint64_t stalled_until{0};          // not schedulable while the global epoch is below this
     std::chrono::steady_clock::time_point stall_deadline{};   // ... but at most until this instant
     std::map<int, int> field_count;          // announcements per field (for stall directives)
@@ -71,7 +72,10 @@ static std::vector<int> replay;        // decisions to follow (if non-empty)
 static std::size_t replay_pos = 0;
 static bool replay_mode = false, replay_infeasible = false;
 static std::uint64_t rng = 1;
-static int policy = 0;                 // 0 random, 1 sticky
+static int policy = 0;                 // 0 random, 1 sticky, 2 pct (priorities + change points)
+static std::vector<std::uint64_t> change_points;   // pct: steps at which the running thread is demoted
+static long low_prio = 0;                           // pct: next lowest priority
+static std::uint64_t est_len = 400;                 // pct: expected run length (from the previous run)
 static std::uint64_t step_no = 0, spin_streak = 0, max_steps = 4000000;
 static bool stuck = false;
 static std::vector<Ev> trace;
@@ -103,6 +107,19 @@ static int choose(int me) {
         if (!t.spinning) calm.push_back(i);
     }
     if (cand.empty()) return -1;
+    if (policy == 2) {
+        // PCT: run the highest-priority candidate; a thread that spins or hits a change point is
+        // demoted below everybody (so a lock holder can run, and so that a thread can be held
+        // back for a long stretch at an arbitrary point)
+        if (me >= 0 && me < static_cast<int>(th.size())) {
+            bool demote = th[me].spinning;
+            for (auto cp : change_points) if (cp == step_no) demote = true;
+            if (demote) th[me].prio = --low_prio;
+        }
+        int best = cand[0];
+        for (int c : cand) if (th[c].prio > th[best].prio) best = c;
+        return best;
+    }
     if (policy == 1 && me >= 0 && !th[me].finished && !th[me].detached && !th[me].spinning && !stalled(th[me]) && (rnd() % 10) < 7) return me;
     // spinning threads are picked less often: they cannot progress until someone else does
     if (!calm.empty() && (cand.size() == calm.size() || (rnd() % 4) != 0)) return calm[rnd() % calm.size()];
@@ -485,9 +502,16 @@ int main(int argc, char** argv) {
         sched::step_no = 0;
         sched::spin_streak = 0;
         sched::current = -1;
-        sched::policy = pol == "sticky" ? 1 : 0;
+        sched::policy = pol == "sticky" ? 1 : (pol == "pct" ? 2 : 0);
         sched::rng = (seed + static_cast<std::uint64_t>(run)) * 0x9E3779B97F4A7C15ULL + 0x1234567;
         if (sched::rng == 0) sched::rng = 1;
+        if (sched::policy == 2) {
+            sched::low_prio = 0;
+            sched::change_points.clear();
+            int d = 1 + static_cast<int>(sched::rnd() % 3);
+            for (int i = 0; i < d; ++i) sched::change_points.push_back(1 + sched::rnd() % (sched::est_len + 1));
+            for (int i = 0; i < nw + 2; ++i) sched::th[i].prio = 1000 + static_cast<long>(sched::rnd() % 1000);
+        }
         std::vector<Token> toks(nw, nullptr);
         if (g_auto_session) for (int i = 0; i < nw; ++i) enter(toks[i]);
         std::vector<std::vector<Rec>> recs(nw);
@@ -511,6 +535,7 @@ int main(int argc, char** argv) {
         }
         for (auto& t : ths) t.join();
         sched::active.store(false);
+        if (sched::step_no > 20) sched::est_len = sched::step_no;
         sched::cv.notify_all();
         // ------------- report
         std::cout << "RUN " << run << " seed " << (seed + run) << " steps " << sched::step_no << " threads " << sched::th.size()
@@ -520,7 +545,8 @@ int main(int argc, char** argv) {
             for (auto& r : recs[i])
                 std::cout << "H " << r.tid << " " << r.idx << " " << r.inv << " " << r.ret << " " << r.text << " => " << r.result << "\n";
         // node-version sets: re-validate now that everything has completed
-        for (int i = 0; i < nw; ++i)
+        // (only when the sessions are still open: with explicit leave the nodes may be gone by now)
+        for (int i = 0; g_auto_session && i < nw; ++i)
             for (auto& n : nvs[i]) {
                 std::size_t stale = 0;
                 for (auto& e : n.nv) if (e.second->get_stable_version() != e.first) ++stale;
